@@ -143,14 +143,28 @@ Fixpoint build_dirs (p : list N) (w : walk) (st : bstate) : res bstate :=
 
 Record staged := { sg_store : store; sg_oid : list N; sg_tree : tree; sg_nfiles : N; sg_size : N }.
 
-Definition stage (path : list N) (w : walk) : res staged :=
-  match build_dirs (rstrip_sep path) w {| b_tree := []; b_store := []; b_size := 0 |} with
+(* build(odb, path) + transfer(staging, odb, {obj.hash_info}, shallow=False) into an odb that already
+   holds s0: compare_status asks the destination for the directory object *and* (expansion requested)
+   every file it lists, and exactly the absent ones are added; what is there is left alone.  The
+   staging store is in memory ("assume memfs staged objects already exist"): nothing is missing. *)
+Definition stage_from (s0 : store) (path : list N) (w : walk) : res staged :=
+  match build_dirs (rstrip_sep path) w {| b_tree := []; b_store := s0; b_size := 0 |} with
   | Err c => Err c
   | Ok st =>
       let t := b_tree st in
       Ok {| sg_store := st_add (digestH t, as_bytes false t) (b_store st);
             sg_oid := digestH t; sg_tree := t;
             sg_nfiles := N.of_nat (length t); sg_size := b_size st |}
+  end.
+
+Definition stage (path : list N) (w : walk) : res staged := stage_from [] path w.
+
+(* transfer(staging, odb, {obj.hash_info}) with the default shallow=True into s0: only the directory
+   object is asked for and added *)
+Definition shallow_store (s0 : store) (path : list N) (w : walk) : res store :=
+  match build_dirs (rstrip_sep path) w {| b_tree := []; b_store := []; b_size := 0 |} with
+  | Err c => Err c
+  | Ok st => let t := b_tree st in Ok (st_add (digestH t, as_bytes false t) s0)
   end.
 
 (* single file: _build_file *)
@@ -264,6 +278,28 @@ Definition file_roundtrip (b : bytes) : val :=
   let sg := stage_file md5_hex b in
   VL [VB (sg_oid sg); VN (sg_size sg); enc_store (sg_store sg);
       enc_res enc_bytes (checkout_file (sg_store sg) (sg_oid sg))].
+
+(* pre-histories of the destination store, then the full transfer and the round trip:
+   0 = the directory object alone was transferred first (shallow), 1 = a complete transfer from which
+   the objects [gone] were deleted afterwards *)
+Definition obj_roundtrip_hist (path : list N) (w : walk) (kind : N) (gone : list (list N)) : val :=
+  let pre :=
+    if kind =? 0 then shallow_store md5_hex [] path w
+    else match stage md5_hex path w with
+         | Ok sg => Ok (filter (fun ob => negb (existsb (list_N_eqb (fst ob)) gone)) (sg_store sg))
+         | Err c => Err c
+         end in
+  match pre with
+  | Err c => VL [VN 0; VN c]
+  | Ok s0 =>
+      match stage_from md5_hex s0 path w with
+      | Err c => VL [VN 0; VN c]
+      | Ok sg =>
+          VL [VN 1; VB (sg_oid sg); enc_store s0; enc_store (sg_store sg);
+              enc_res (fun f => VL [enc_fsmap f; enc_dirs (dirs_of f)])
+                      (checkout (sg_store sg) (sg_oid sg))]
+      end
+  end.
 
 (* checkout of a store from which some objects were removed (malformed stream) *)
 Definition checkout_without (path : list N) (w : walk) (gone : list (list N)) : val :=
